@@ -1,6 +1,7 @@
 """C09 — collection queries return exactly the specified members, self-consistently."""
 import itertools
 
+WARM_TWINS = {"quick": 0.02, "thorough": 0.05}      # engine: call-history twins (harness/warm.py)
 ID = "C09"
 LEAN_MODULE = "BioCantor.Props.C09"
 DESIGN_REF = "4/C09"
